@@ -1045,9 +1045,19 @@ def admin_problems(spec: Dict[str, Any], out: Dict[str, Any]) -> List[Tuple[str,
         if cls not in ("KeyboardInterrupt", "SystemExit"):
             problems.append((f"C19:exception-escapes-callback:{cls}", f"the event loop reported {cls}: {msg[:160]}"))
     solo_admin = run_admin(spec, only=0, record=False)
-    removal_acked = spec["op"] == "remove-user" and solo_admin["per"][0]["responses"][:1] and \
-        solo_admin["per"][0]["responses"][0][0] == 200 and not httpc.is_pairing_auth_error(solo_admin["per"][0]["responses"][0][1]) \
-        and out["per"][0]["responses"][:1] == solo_admin["per"][0]["responses"][:1]
+    import uuid as _uuid
+
+    acked = bool(spec["op"].startswith("remove") and solo_admin["per"][0]["responses"][:1]
+                 and solo_admin["per"][0]["responses"][0][0] == 200
+                 and not httpc.is_pairing_auth_error(solo_admin["per"][0]["responses"][0][1])
+                 and out["per"][0]["responses"][:1] == solo_admin["per"][0]["responses"][:1])
+    still_paired = set(solo_admin["pairings"]["paired_clients"])
+    ident = {"user": base.CANARY_USER_ID, "admin": base.CANARY_CTRL_ID, "admin2": base.CANARY_CTRL_ID}
+
+    def removed(role) -> bool:
+        """this connection's controller is no longer paired once the admin's (acknowledged) removal is done —
+        directly, or through the last-admin rule"""
+        return acked and role in ident and str(_uuid.UUID(ident[role].decode())) not in still_paired
     for k, o in out["per"].items():
         role = spec["conns"][k]["role"]
         for where, cls in o["escaped"]:
@@ -1057,7 +1067,7 @@ def admin_problems(spec: Dict[str, Any], out: Dict[str, Any]) -> List[Tuple[str,
         if k == 0:
             want = solo_admin["per"][0]
             expect_closed = want["closed"]
-        elif role == "user" and removal_acked:
+        elif removed(role):
             want = run_admin(spec, only=k, x_pre_only=True, record=False)["per"][k]
             # the one allowed effect: the removed controller's sessions are torn down; they keep what they had
             # been sent when the removal arrived and get nothing more
@@ -1071,7 +1081,7 @@ def admin_problems(spec: Dict[str, Any], out: Dict[str, Any]) -> List[Tuple[str,
                 "C19:connection-affected-by-another-connection",
                 f"connection {k} ({role}, {spec['conns'][k].get('state', '-')}) got statuses {[s_ for s_, _ in o['responses']]} closed={o['closed']} "
                 f"around the admin's pairings {spec['op']}, expected {[s_ for s_, _ in want['responses']]} closed={expect_closed}"
-                + (" (its controller was removed: the session must be closed)" if role == "user" and removal_acked else " (as for the same bytes alone)"),
+                + (" (its controller is no longer paired: the session must be closed)" if k != 0 and removed(role) else " (as for the same bytes alone)"),
             ))
         if o["closed"] and o["registered"]:
             problems.append(("C19:closed-connection-still-registered", f"connection {k} closed but still registered"))
@@ -1099,7 +1109,7 @@ def admin_specs(ctx: Ctx) -> List[Dict[str, Any]]:
     for shape in (["async", "sync", "bridge"] if deep else ["async"]):
         probe = base.World(True, shape)
         try:
-            for op in ADMIN_OPS + (["remove-last-admin"] if deep else []):
+            for op in ADMIN_OPS + ["remove-last-admin"]:
                 for state in X_STATES:
                     variants = [(state, None)] + ([(state, rng.randrange(1, 60)) for _ in range(3)] if deep and state.startswith("mid") else [])
                     for st_, cut in variants:
@@ -1142,7 +1152,7 @@ def run_admin_cases(ctx: Ctx, lines, metas, obss):
         if probs and not any(f.signature == probs[0][0] for f in ctx.failures):
             ctx.fail(probs[0][0], "; ".join(d for _, d in probs[:4]) + f" [{spec['label']}]", spec)
         for k, o in out["per"].items():
-            if spec["conns"][k]["role"] == "user" and o["closed_by_op"]:
+            if k != 0 and o["closed_by_op"]:
                 continue  # closed from outside its own callbacks (the allowed teardown): not this connection's pump
             role = spec["conns"][k]["role"]
             verified = role != "unverified"
